@@ -73,6 +73,15 @@ class Engine:
             if pl:
                 rx = re.compile(r'(?<![-a-zA-Z$._0-9"])(' + '|'.join(re.escape(x) for x in pl) + r')(?![-a-zA-Z$._0-9"])')
                 txt = rx.sub(lambda m: m.group(1) + '.tu%d' % n, txt)
+            # named struct types are per-module in LLVM IR: different translation units use the same name (%"class.std::optional", %"struct.std::pair", ...)
+            # for different instantiations, so every type name gets a per-file suffix before the modules are merged
+            tnames = set(re.findall(r'^(%"(?:[^"\\]|\\.)*"|%[-a-zA-Z$._0-9]+) = type ', txt, re.M))
+            if tnames:
+                def _rn(m, tn=tnames, sfx='.tu%d' % n):
+                    t = m.group(0)
+                    if t not in tn: return t
+                    return (t[:-1] + sfx + '"') if t.endswith('"') else t + sfx
+                txt = re.sub(r'%"(?:[^"\\]|\\.)*"|%[-a-zA-Z$._0-9]+', _rn, txt)
             ir2c.parse_module(txt, s.mod)
         s.E = ir2c.Emit(s.mod, set())
         s.parsed = {}; s.faddr = {}; s.addrf = {}; s.gaddr = {}
